@@ -140,7 +140,7 @@ Proof.
   intros Hz Hv Hmn Hmx. unfold real_validate.
   destruct v as [|vn|vn vd]; [congruence| |];
   destruct mn as [[|mneg|m md]|]; try contradiction; destruct mx as [[|xneg|x xd]|]; try contradiction;
-  unfold num_in_bounds, num_ge_opt, num_le_opt, num_zero_bound, num_is_zero, num_le, num_ltb, num_truthy in *;
+  unfold num_in_bounds, num_ge_opt, num_le_opt, num_zero_bound, num_is_zero, num_le, num_ltb, num_leb, num_truthy in *;
   repeat match goal with b : bool |- _ => destruct b end;
   repeat break_if;
   try (split; [intros _; try tauto; try lia | intros _; reflexivity]; fail);
@@ -193,7 +193,7 @@ Proof.
   intros Hv Hmn Hmx. unfold dec_validate.
   destruct v as [|vn|vn vd]; [congruence| |];
   destruct mn as [[|mneg|m md]|]; try contradiction; destruct mx as [[|xneg|x xd]|]; try contradiction;
-  unfold num_in_bounds, num_ge_opt, num_le_opt, num_le, num_ltb in *;
+  unfold num_in_bounds, num_ge_opt, num_le_opt, num_le, num_ltb, num_leb in *;
   repeat match goal with b : bool |- _ => destruct b end;
   repeat break_if;
   try (split; [intros _; try tauto; try lia | intros _; reflexivity]; fail);
